@@ -212,3 +212,17 @@ Qed.
 
 Theorem disassemble_fuel_suffices bs : Forall byte bs -> disassemble bs <> Err OutOfFuel.
 Proof. intros F. apply dis_fuel_enough; [exact F | lia]. Qed.
+
+(* ---- the regenerated tables give every opcode at most one meaning ---- *)
+Definition covers (r : Z * Z) (op : Z) : bool :=
+  let '(o, ab) := r in if ab =? 0 then op =? o else (o <=? op) && (op <? o + 2 ^ ab).
+Definition count_cover (tbl : list (Z * Z)) (op : Z) : nat := length (filter (fun r => covers r op) tbl).
+Lemma opcode_classes_table :
+  forallb (fun op => Nat.leb (count_cover tt_instructions op + count_cover tt_stream op) 1) range256 = true.
+Proof. vm_compute. reflexivity. Qed.
+Theorem opcode_classes_disjoint op : 0 <= op < 256 ->
+  (count_cover tt_instructions op + count_cover tt_stream op <= 1)%nat.
+Proof.
+  intros H. pose proof opcode_classes_table as T. rewrite forallb_forall in T.
+  specialize (T op (in_range256 op H)). apply Nat.leb_le in T. exact T.
+Qed.
